@@ -84,11 +84,22 @@ def key_of(r, spec_bad):
     return "c11:%s:%s" % (k, suffix)
 
 
+def balance(rs, cost, shard):
+    """reorder so that the contiguous shards cut by coq_eval get an even mix of cheap and expensive cases"""
+    rs = sorted(rs, key=cost, reverse=True)
+    ns = max(1, (len(rs) + shard - 1) // shard)
+    out = []
+    for j in range(ns):
+        out.extend(rs[j::ns])
+    return out
+
+
 def evaluate(ck, recs):
     for kind, (typ, fn, term, shard) in KINDS.items():
         rs = [r for r in recs if r["k"] == kind]
         if not rs:
             continue
+        rs = balance(rs, lambda r: r["n"] * (1 + len(r.get("tampers", []))), shard)
         # balance shards: cost grows with n
         res = ck.coq_eval(IMPORTS, typ, fn, [term(r) for r in rs], shard=shard, tag=kind, timeout=1700)
         if res is None:
